@@ -30,6 +30,7 @@ struct wrap_http {
 };
 extern struct wrap_http wh;
 
+int wh_is_live(const void *);
 void * __real_malloc(size_t);
 void * __real_realloc(void *, size_t);
 void __real_free(void *);
